@@ -66,7 +66,11 @@ def compare(m, M, exact=True, tol=0.0, want_ori=True, same_class=True):
     elif not exact and np.abs(m.p - M.p).max() > tol:
         out.append(('p', f'max abs diff {np.abs(m.p - M.p).max():.3e} > {tol}'))
     if m.t.shape != M.t.shape or not np.array_equal(m.t, M.t):
-        out.append(('t', 'connectivity differs'))
+        # a triangle mesh whose cells are not in ascending vertex order (oriented(), sort_t=False) is loaded by a class
+        # that sorts them: the same cells, vertex order within a cell aside
+        if not (m.t.shape == M.t.shape and not getattr(m, 'sort_t', True) is True and type(m).__name__ == 'MeshTri1'
+                and np.array_equal(np.sort(m.t, axis=0), np.sort(M.t, axis=0))):
+            out.append(('t', 'connectivity differs'))
     for what, a, b in (('subdomains', m.subdomains, M.subdomains), ('boundaries', m.boundaries, M.boundaries)):
         a, b = a or {}, b or {}
         if sorted(a) != sorted(b):
@@ -77,11 +81,16 @@ def compare(m, M, exact=True, tol=0.0, want_ori=True, same_class=True):
             if sorted(sa.tolist()) != sorted(sb.tolist()):
                 out.append((what + '-set', f'{k}: {sorted(sa.tolist())} -> {sorted(sb.tolist())}'))
             elif what == 'boundaries' and want_ori:
-                da, db = tag_ori(a[k]), tag_ori(b[k])
+                # orientation = which cell is on the tagged side (the flag indexes the rows of f2t; equal tables: equal flags)
+                da = {f: int(m.f2t[o, f]) for f, o in tag_ori(a[k]).items()}
+                db = {f: int(M.f2t[o, f]) for f, o in tag_ori(b[k]).items()}
+                if getattr(a[k], 'ori', None) is None and getattr(b[k], 'ori', None) is None:
+                    continue            # unoriented before and after: no side to compare
+                # (an unoriented tag that comes back with flags must still designate the side f2t[0] it had implicitly)
                 if da != db:
                     bad = sorted(f for f in da if da[f] != db[f])
-                    out.append(('orientation', f'{k}: {len(bad)} of {len(da)} facets, e.g. facet {bad[0]}: '
-                                               f'{da[bad[0]]} -> {db[bad[0]]}'))
+                    out.append(('orientation', f'{k}: {len(bad)} of {len(da)} facets, e.g. facet {bad[0]}: tagged side '
+                                               f'cell {da[bad[0]]} -> cell {db[bad[0]]}'))
     return out
 
 
@@ -126,7 +135,13 @@ def _npz_rt(m, pd, cd):
 
 
 def _dict_rt(m, pd, cd):
-    return type(m).from_dict(m.to_dict()), None, None
+    import copy
+    d = m.to_dict()
+    d0 = copy.deepcopy(d)
+    M = type(m).from_dict(d)
+    if list(d) != list(d0) or any(type(d[k]) is not type(d0[k]) or d[k] != d0[k] for k in d0):
+        raise AssertionError('from_dict modified the dictionary given by the caller')
+    return M, None, None
 
 
 def _json_rt(m, pd, cd):
@@ -268,6 +283,26 @@ def correspondence(ctx, gen_ok, ho_ok=True):
         ind = np.asarray(ms._encode_cell_data()['skfem:s:s'][0])
         _, sd = ms._decode_cell_data({'skfem:s:s': [ind]})
         sub_cases.append((f'({cnat(nt)}, {cnats(s)})', f'({cNs(ind)}, {cnats(np.asarray(sd["s"]))})', ('sub', name, kk)))
+    # from_meshio on meshes whose cells are NOT in ascending vertex order: the decoder gets the slot table of the connectivity
+    # as read (= the encoder's table) but the neighbour table of the loaded (re-sorted) mesh
+    from skfem.io.meshio import from_meshio, to_meshio
+    for k in range(ctx.n(10, 40)):
+        name = ['MeshTri1', 'MeshTet1'][k % 2]
+        m = rand_mesh1(name, rng, size=[2, 3] if k % 2 == 0 else [2, 2, 2]).oriented()
+        nf = m.facets.shape[1]
+        kk = int(rng.integers(1, nf + 1))
+        f = np.sort(rng.choice(nf, size=kk, replace=False)).astype(np.int32)
+        ori = rng.integers(0, 2, size=kk)
+        ori[m.f2t[1, f] == -1] = 0
+        mt = m.with_boundaries({'x': OrientedBoundary(f, ori)})
+        M = from_meshio(to_meshio(mt))
+        data = np.asarray(mt._encode_cell_data()['skfem:b:x'][0])
+        g = M.boundaries['x']
+        go = getattr(g, 'ori', None)
+        go = [0] * len(g) if go is None else np.asarray(go).tolist()
+        ns, nt, t2f, _ = tables(mt)
+        dec_cases.append((f'({cnat(ns)}, {cnat(nt)}, {t2f}, {cmat_z(M.f2t)}, {cNs(data)})', f'({cnats(np.asarray(g))}, {cbools(go)})',
+                          ('dec-loaded', name, int(kk), int(sum(ori)))))
     # to_dict / from_dict at the level of the tag dictionaries
     def cstr(x):
         assert '"' not in x and x.isascii()
@@ -366,6 +401,7 @@ def one_roundtrip(ctx, m, fmt, rng, codec_ok):
         extra = [pd['upoint'], cd['ucell'][0]]
         keep = (pd['upoint'].copy(), cd['ucell'][0].copy())
     cs0 = checksum(m, extra)
+    own = None if not userdata else (list(pd), list(cd), pd['upoint'], cd['ucell'], cd['ucell'][0])
     try:
         with quiet():
             M, opd, ocd = fn(m, pd, cd)
@@ -377,6 +413,10 @@ def one_roundtrip(ctx, m, fmt, rng, codec_ok):
     if checksum(m, extra) != cs0:
         ctx.fail(f'mutated:{fmt}:{name}', 'exporting altered the mesh or the user data arrays',
                  {'mesh': mesh_json(m), 'format': fmt})
+    if own is not None and not (list(pd) == own[0] and list(cd) == own[1] and pd['upoint'] is own[2]
+                                and cd['ucell'] is own[3] and cd['ucell'][0] is own[4]):
+        ctx.fail(f'caller-dict-changed:{fmt}:{name}', 'exporting changed the point_data / cell_data dictionaries of the caller',
+                 {'mesh': mesh_json(m), 'format': fmt, 'point_data_keys': list(pd), 'cell_data_keys': list(cd)})
     plain = fmt in PLAIN
     diffs = compare(m, M, exact=exact, tol=tol, want_ori=True, same_class=not (first_only and name in SECOND))
     if not exact and m.p.shape == M.p.shape:
@@ -461,6 +501,9 @@ def oracle(ctx):
     for name in ALL:
         for rep in range(nper):
             m = rand_mesh(name, rng)
+            if rep % 3 == 1 and name in ('MeshTri1', 'MeshTet1'):
+                m = m.oriented()                                   # cells not in ascending vertex order (sort_t=False)
+                ctx.hist('unsorted_cells', name)
             sub, bnd = rand_tags(m, rng, empty=rep > 0)
             if rep == nper - 1 and rng.random() < 0.5:
                 mt = m                                             # an untagged mesh now and then
